@@ -8,8 +8,16 @@ package standard
 // addresses (and builder public keys) recur in every auction of the history with that auction's own
 // relay configurations (minimum value, public key, grace), builder catalogue and bids; auctions are run
 // one after the other or overlapping (the next AuctionBlock is called while the previous one is in
-// progress), BuilderBid is asked in between.  Nothing is shared between scenarios but the process.  Relays are in-process fakes registered through the overlay
-// seam util.VerifSetBuilderClient; their answers are real VersionedSignedBuilderBid objects signed
+// progress), BuilderBid is asked in between.  Nothing is shared between scenarios but the process.
+//
+// Two families (field `family` of the Reset step).  "fake": relays are in-process fakes registered through the
+// overlay seam util.VerifSetBuilderClient (one fake per spelling of a relay's address: no key, K1 or K2 in the
+// user-information part), the execution configuration is a fake, a wrapper substitutes the builder catalogue per
+// auction.  "wired" (zz_verif_c09_wired_test.go): nothing between the block relay service and the relay servers is
+// replaced - real execution configuration V2 parsed from a generated document, the real strategy handed to the
+// service as main.go does, real util.FetchBuilderClient and go-builder-client HTTP clients, httptest relay
+// servers that sign with chosen keys; other users of the client cache (registration submission) run in between.
+// In both families the answers are real VersionedSignedBuilderBid objects signed
 // with harness BLS keys under the application-builder domain, so the strategies' own eligibility
 // and signature checks run.  Time is the observed quantity: every delivery and return instant is
 // classified against the strategy's time-outs as before / ambiguous / after (DESIGN 2.2) and the
@@ -22,6 +30,7 @@ import (
 	"fmt"
 	"math/big"
 	"math/rand"
+	"net/url"
 	"os"
 	"sort"
 	"sync"
@@ -56,6 +65,7 @@ import (
 	"github.com/holiman/uint256"
 	"github.com/rs/zerolog"
 	"github.com/shopspring/decimal"
+	"github.com/spf13/viper"
 	e2types "github.com/wealdtech/go-eth2-types/v2"
 	e2wtypes "github.com/wealdtech/go-eth2-wallet-types/v2"
 	"github.com/wealdtech/go-majordomo"
@@ -77,8 +87,9 @@ type c09Answer struct {
 
 type c09RelayCfg struct {
 	Min   int64  `json:"min"`
-	Key   string `json:"key"`
+	Key   string `json:"key"` // public_key of the relay configuration: "none", "config" (K1), "config2" (K2)
 	Grace int    `json:"grace"`
+	Sp    string `json:"sp"` // the key spelled in the user-information part of the relay address: "none", "K1", "K2"
 }
 
 type c09BuilderCfg struct {
@@ -98,8 +109,10 @@ type c09KeyID struct {
 type c09Step struct {
 	Ev       string                   `json:"ev"`
 	Variant  string                   `json:"variant"`
-	Prov     []bool                   `json:"prov"`
+	Family   string                   `json:"family"`
 	Mode     string                   `json:"mode"`
+	Sp       string                   `json:"sp"`
+	Via      string                   `json:"via"`
 	I        int                      `json:"i"`
 	Key      c09KeyID                 `json:"key"`
 	Cfg      []c09RelayCfg            `json:"cfg"`
@@ -289,6 +302,7 @@ type c09Delivery struct {
 	a    c09Answer
 	d    time.Duration // since the origin of the auction
 	at   time.Time
+	id   string // wired family: the content of the bid (message root and signature), by which it is recognised in the Results
 }
 
 type c09BidID struct{ i, r, n int }
@@ -326,12 +340,12 @@ type c09Auction struct {
 	line    verifsupport.Ev // the Auction line of the trace
 }
 
+// c09Relay is the in-process client of ONE spelling of a relay's address (fake family).
 type c09Relay struct {
 	in     *c09Instance
-	id     int
+	id     int // the relay's location
 	addr   string
-	pubkey *phase0.BLSPubKey // what Pubkey() reports (nil unless the relay client knows its key itself)
-	sk     *e2types.BLSPrivateKey
+	pubkey *phase0.BLSPubKey // what Pubkey() reports: the key spelled in the address (nil if none)
 }
 
 func (r *c09Relay) Name() string              { return "c09" }
@@ -346,31 +360,47 @@ func (r *c09Relay) BuilderBid(ctx context.Context, opts *builderapi.BuilderBidOp
 		r.in.noteBad(fmt.Sprintf("relay %d: nil opts", r.id))
 		return nil, errors.New("nil opts")
 	}
-	r.in.mu.Lock()
-	au := r.in.auctions[c09Key{slot: opts.Slot, parent: opts.ParentHash, pubkey: opts.PubKey}]
-	r.in.mu.Unlock()
+	kind, bid, err := r.in.answer(ctx, r.id, c09Key{slot: opts.Slot, parent: opts.ParentHash, pubkey: opts.PubKey}, nil)
+	switch {
+	case err != nil:
+		return nil, err
+	case kind == "nobid":
+		return &builderapi.Response[*builderspec.VersionedSignedBuilderBid]{Metadata: map[string]any{}}, nil
+	default:
+		return &builderapi.Response[*builderspec.VersionedSignedBuilderBid]{Data: bid, Metadata: map[string]any{}}, nil
+	}
+}
+
+// answer is the relay at location rid answering a request for a bid for key: it follows the script of the auction
+// (waits for the scripted instant, stays silent when the script is exhausted), builds the reply and records the
+// delivery.  prepare (wired family: the encoding of the reply) runs before the delivery instant is taken.
+func (in *c09Instance) answer(ctx context.Context, rid int, key c09Key, prepare func(*builderspec.VersionedSignedBuilderBid) (string, error),
+) (string, *builderspec.VersionedSignedBuilderBid, error) {
+	in.mu.Lock()
+	au := in.auctions[key]
+	in.mu.Unlock()
 	if au == nil {
-		r.in.noteBad(fmt.Sprintf("relay %d: request for a key that is not being auctioned (slot %d)", r.id, opts.Slot))
-		return nil, errors.New("unknown request")
+		in.noteBad(fmt.Sprintf("relay %d: request for a key that is not being auctioned (slot %d)", rid, key.slot))
+		return "", nil, errors.New("unknown request")
 	}
 	au.mu.Lock()
-	au.calls[r.id]++
-	n := au.calls[r.id]
-	script := au.scripts[r.id]
+	au.calls[rid]++
+	n := au.calls[rid]
+	script := au.scripts[rid]
 	origin := au.origin
 	stop := au.stop
 	closed := au.closed
 	au.mu.Unlock()
 	if closed {
-		return nil, errors.New("auction over")
+		return "", nil, errors.New("auction over")
 	}
 	if n > len(script) {
 		// Silence: nothing until the caller gives up or the auction is over.
 		select {
 		case <-ctx.Done():
-			return nil, ctx.Err()
+			return "", nil, ctx.Err()
 		case <-stop:
-			return nil, errors.New("auction over")
+			return "", nil, errors.New("auction over")
 		}
 	}
 	item := script[n-1]
@@ -380,36 +410,41 @@ func (r *c09Relay) BuilderBid(ctx context.Context, opts *builderapi.BuilderBidOp
 		case <-timer.C:
 		case <-stop:
 			timer.Stop()
-			return nil, errors.New("auction over")
+			return "", nil, errors.New("auction over")
 		}
 	}
 	// Build the reply before taking the delivery instant (signing takes a while).
-	var resp *builderapi.Response[*builderspec.VersionedSignedBuilderBid]
 	var err error
 	var bid *builderspec.VersionedSignedBuilderBid
+	ident := ""
 	switch item.a.Kind {
 	case "error":
 		err = errors.New("scripted relay error")
 	case "nobid":
-		resp = &builderapi.Response[*builderspec.VersionedSignedBuilderBid]{Metadata: map[string]any{}}
 	default:
-		bid = r.in.makeBid(r, au, item.a)
-		resp = &builderapi.Response[*builderspec.VersionedSignedBuilderBid]{Data: bid, Metadata: map[string]any{}}
+		bid = in.makeBid(rid, au, item.a)
+		if prepare != nil {
+			var perr error
+			if ident, perr = prepare(bid); perr != nil {
+				in.noteBad(fmt.Sprintf("relay %d: cannot encode the reply: %v", rid, perr))
+				return "", nil, perr
+			}
+		}
 	}
 	au.mu.Lock()
 	if au.closed {
 		au.mu.Unlock()
-		return nil, errors.New("auction over")
+		return "", nil, errors.New("auction over")
 	}
-	if bid != nil {
-		r.in.mu.Lock()
-		r.in.bids[bid] = c09BidID{i: au.i, r: r.id, n: n}
-		r.in.mu.Unlock()
+	if bid != nil && !in.wired {
+		in.mu.Lock()
+		in.bids[bid] = c09BidID{i: au.i, r: rid, n: n}
+		in.mu.Unlock()
 	}
 	now := time.Now()
-	au.deliveries = append(au.deliveries, c09Delivery{r: r.id, n: n, a: item.a, d: now.Sub(origin), at: now})
+	au.deliveries = append(au.deliveries, c09Delivery{r: rid, n: n, a: item.a, d: now.Sub(origin), at: now, id: ident})
 	au.mu.Unlock()
-	return resp, err
+	return item.a.Kind, bid, err
 }
 
 // ---------------------------------------------------------------------------------------------
@@ -422,9 +457,9 @@ type c09Env struct {
 	domainProvider consensusclient.DomainProvider
 	majordomo      majordomo.Service
 	domain         phase0.Domain
-	badSig         phase0.BLSSignature
-	otherKey       *e2types.BLSPrivateKey
-	relayKeys      []*e2types.BLSPrivateKey
+	badSigs        []phase0.BLSSignature    // per relay location: bytes that do not deserialise as a signature
+	relayKeys      []*e2types.BLSPrivateKey // per relay location: K1
+	altKeys        []*e2types.BLSPrivateKey // per relay location: K2
 	slotMu         sync.Mutex
 	nextSlot       uint64
 }
@@ -456,24 +491,25 @@ func c09NewEnv(t *testing.T, ctx context.Context) *c09Env {
 		t.Fatalf("domain: %v", err)
 	}
 	e.domain = d
-	e.otherKey = c09PrivateKey(t, "other")
-	for i := 1; i <= 8; i++ {
+	for i := 1; i <= 4; i++ {
 		e.relayKeys = append(e.relayKeys, c09PrivateKey(t, fmt.Sprintf("relay %d", i)))
-	}
-	// A signature that does not deserialise.
-	found := false
-	for b := 0; b < 256 && !found; b++ {
-		var sig phase0.BLSSignature
-		for i := range sig {
-			sig[i] = byte(b)
+		e.altKeys = append(e.altKeys, c09PrivateKey(t, fmt.Sprintf("relay %d other", i)))
+		// A signature that does not deserialise (one per relay, so that a bid is recognised by its content).
+		found := false
+		for b := 0; b < 256 && !found; b++ {
+			var sig phase0.BLSSignature
+			for k := range sig {
+				sig[k] = byte(b)
+			}
+			sig[95] = byte(i)
+			if _, err := e2types.BLSSignatureFromBytes(sig[:]); err != nil {
+				e.badSigs = append(e.badSigs, sig)
+				found = true
+			}
 		}
-		if _, err := e2types.BLSSignatureFromBytes(sig[:]); err != nil {
-			e.badSig = sig
-			found = true
+		if !found {
+			t.Fatalf("no undeserialisable signature found")
 		}
-	}
-	if !found {
-		t.Fatalf("no undeserialisable signature found")
 	}
 	majordomoSvc, err := standardmajordomo.New(ctx)
 	if err != nil {
@@ -519,13 +555,16 @@ type c09Instance struct {
 	ctx        context.Context
 	cancel     context.CancelFunc
 	variant    string
+	wired      bool
 	chainTime  *c09ChainTime
-	execConfig *c09ExecConfig
+	execConfig *c09ExecConfig // fake family
 	svc        *Service
-	relays     []*c09Relay
-	addrToID   map[string]int
+	nrel       int
+	addrs      []map[string]string // per relay location: spelling ("none", "K1", "K2") -> address
+	hosts      map[string]int      // host part of a relay address -> relay location
 	baseSlot   phase0.Slot
 	uniq       string
+	wiredState *c09Wired // wired family: relay servers, current execution configuration
 
 	mu       sync.Mutex
 	auctions map[c09Key]*c09Auction
@@ -539,14 +578,59 @@ func (in *c09Instance) noteBad(what string) {
 	in.mu.Unlock()
 }
 
-func (e *c09Env) newInstance(variant string, prov []bool, uniq string) *c09Instance {
+var c09Spellings = []string{"none", "K1", "K2"}
+
+// relayKey is the private key named name ("K1", "K2") of the relay at location r.
+func (in *c09Instance) relayKey(r int, name string) *e2types.BLSPrivateKey {
+	if name == "K2" {
+		return in.env.altKeys[r-1]
+	}
+	return in.env.relayKeys[r-1]
+}
+
+// relayPub is the public key named name of the relay at location r (nil for "none").
+func (in *c09Instance) relayPub(r int, name string) *phase0.BLSPubKey {
+	if name != "K1" && name != "K2" {
+		return nil
+	}
+	var pub phase0.BLSPubKey
+	copy(pub[:], in.relayKey(r, name).PublicKey().Marshal())
+	return &pub
+}
+
+// setAddrs fixes the addresses of the relay at location r, reachable at host: http://host,
+// http://0x<K1>@host, http://0x<K2>@host.
+func (in *c09Instance) setAddrs(r int, host string) {
+	m := map[string]string{}
+	for _, sp := range c09Spellings {
+		if pub := in.relayPub(r, sp); pub != nil {
+			m[sp] = fmt.Sprintf("http://%#x@%s", pub[:], host)
+		} else {
+			m[sp] = fmt.Sprintf("http://%s", host)
+		}
+	}
+	in.addrs[r-1] = m
+	in.hosts[host] = r
+}
+
+// locOf is the relay location of a relay address as a client reports it (0 if unknown).
+func (in *c09Instance) locOf(address string) int {
+	u, err := url.Parse(address)
+	if err != nil {
+		return 0
+	}
+	return in.hosts[u.Host]
+}
+
+func (e *c09Env) newInstance(variant string, family string, nrel int, builderConfigs map[phase0.BLSPubKey]*blockrelay.BuilderConfig, uniq string) *c09Instance {
 	t := e.t
 	ctx, cancel := context.WithCancel(e.ctx)
 	in := &c09Instance{
-		env: e, ctx: ctx, cancel: cancel, variant: variant, uniq: uniq,
+		env: e, ctx: ctx, cancel: cancel, variant: variant, uniq: uniq, wired: family == "wired", nrel: nrel,
 		chainTime:  &c09ChainTime{ChainTime: verifsupport.NewChainTime(32, 12*time.Second), starts: map[phase0.Slot]time.Time{}},
 		execConfig: &c09ExecConfig{configs: map[phase0.BLSPubKey]*beaconblockproposer.ProposerConfig{}, fetched: map[phase0.BLSPubKey]chan struct{}{}},
-		addrToID:   map[string]int{},
+		addrs:      make([]map[string]string, nrel),
+		hosts:      map[string]int{},
 		baseSlot:   e.slots(),
 		auctions:   map[c09Key]*c09Auction{},
 		bids:       map[*builderspec.VersionedSignedBuilderBid]c09BidID{},
@@ -578,6 +662,14 @@ func (e *c09Env) newInstance(variant string, prov []bool, uniq string) *c09Insta
 	if err != nil {
 		t.Fatalf("%s strategy: %v", variant, err)
 	}
+	// fake family: a wrapper substitutes the builder catalogue of the auction being run; wired family: the strategy
+	// is handed to the service as main.go does and the service passes the (one) catalogue it was created with
+	var bidProvider builderbid.Provider = &c09Provider{real: strategy, in: in}
+	serviceBuilderConfigs := map[phase0.BLSPubKey]*blockrelay.BuilderConfig{}
+	if in.wired {
+		bidProvider = strategy
+		serviceBuilderConfigs = builderConfigs
+	}
 	s, err := New(ctx,
 		WithLogLevel(zerolog.Disabled),
 		WithMonitor(nullmetrics.New()),
@@ -592,31 +684,55 @@ func (e *c09Env) newInstance(variant string, prov []bool, uniq string) *c09Insta
 		WithValidatingAccountsProvider(mockaccountmanager.NewValidatingAccountsProvider()),
 		WithValidatorRegistrationSigner(mocksigner.New()),
 		WithReleaseVersion("verif"),
-		WithBuilderBidProvider(&c09Provider{real: strategy, in: in}),
-		WithBuilderConfigs(map[phase0.BLSPubKey]*blockrelay.BuilderConfig{}),
+		WithBuilderBidProvider(bidProvider),
+		WithBuilderConfigs(serviceBuilderConfigs),
 	)
 	if err != nil {
 		t.Fatalf("block relay service: %v", err)
 	}
+	in.svc = s
+	if in.wired {
+		in.startWired()
+		return in
+	}
 	s.executionConfigMu.Lock()
 	s.executionConfig = in.execConfig
 	s.executionConfigMu.Unlock()
-	in.svc = s
 
-	// The relays of this instance: the SAME addresses (and clients) in every auction of the history.
-	for i := range prov {
-		sk := e.relayKeys[i]
-		rel := &c09Relay{in: in, id: i + 1, addr: fmt.Sprintf("http://relay%d.%s.verif", i+1, uniq), sk: sk}
-		if prov[i] {
-			var pub phase0.BLSPubKey
-			copy(pub[:], sk.PublicKey().Marshal())
-			rel.pubkey = &pub
+	// The relays of this instance: the SAME locations in every auction of the history, every spelling of a relay's
+	// address with its own client (as util.FetchBuilderClient creates them), which reports the key spelled in it.
+	for r := 1; r <= nrel; r++ {
+		in.setAddrs(r, fmt.Sprintf("relay%d.%s.verif", r, uniq))
+		for _, sp := range c09Spellings {
+			rel := &c09Relay{in: in, id: r, addr: in.addrs[r-1][sp], pubkey: in.relayPub(r, sp)}
+			util.VerifSetBuilderClient(rel.addr, rel)
 		}
-		in.relays = append(in.relays, rel)
-		in.addrToID[rel.addr] = rel.id
-		util.VerifSetBuilderClient(rel.addr, rel)
 	}
 	return in
+}
+
+// close releases what the instance holds outside the process-wide client cache.
+func (in *c09Instance) close() {
+	in.cancel()
+	if in.wiredState != nil {
+		in.wiredState.close()
+	}
+}
+
+// fetch is another user of util.FetchBuilderClient obtaining the client of address (r, sp).
+func (in *c09Instance) fetch(r int, sp string, via string) error {
+	if r < 1 || r > in.nrel {
+		return fmt.Errorf("no relay %d", r)
+	}
+	address := in.addrs[r-1][sp]
+	if in.wired && via == "registrations" {
+		// the submission of validator registrations (start-up, every epoch): the real function, which fetches the
+		// client of every relay address it has registrations for and posts them to the relay
+		in.svc.submitRelayRegistrations(in.ctx, map[string][]*builderapi.VersionedSignedValidatorRegistration{address: {}})
+		return nil
+	}
+	_, err := util.FetchBuilderClient(in.ctx, address, nullmetrics.New(), "verif")
+	return err
 }
 
 func c09Hash(tag string, i int) (res [32]byte) {
@@ -650,23 +766,29 @@ func c09BuilderConfigs(table map[string]c09BuilderCfg) map[phase0.BLSPubKey]*blo
 	return res
 }
 
+// c09ConfigKey names the key that the public_key of a relay configuration carries.
+func c09ConfigKey(key string) string {
+	switch key {
+	case "config":
+		return "K1"
+	case "config2":
+		return "K2"
+	}
+	return "none"
+}
+
 // relayConfigs generates the relay configurations of one auction (new objects for every auction, as the
 // execution configuration does).
 func (in *c09Instance) relayConfigs(cfg []c09RelayCfg) []*beaconblockproposer.RelayConfig {
 	res := make([]*beaconblockproposer.RelayConfig, len(cfg))
 	for i, c := range cfg {
-		rel := in.relays[i]
 		rc := &beaconblockproposer.RelayConfig{
-			Address:      rel.addr,
+			Address:      in.addrs[i][c.Sp],
 			FeeRecipient: bellatrix.ExecutionAddress{0x01},
 			GasLimit:     30000000,
 			MinValue:     decimal.NewFromInt(c.Min),
 		}
-		if c.Key == "config" {
-			var pub phase0.BLSPubKey
-			copy(pub[:], rel.sk.PublicKey().Marshal())
-			rc.PublicKey = &pub
-		}
+		rc.PublicKey = in.relayPub(i+1, c09ConfigKey(c.Key))
 		if c.Grace > 0 {
 			rc.Grace = c09GraceDur
 		}
@@ -676,7 +798,7 @@ func (in *c09Instance) relayConfigs(cfg []c09RelayCfg) []*beaconblockproposer.Re
 }
 
 // makeBid builds and signs a real bid for answer a of relay r in auction au.
-func (in *c09Instance) makeBid(r *c09Relay, au *c09Auction, a c09Answer) *builderspec.VersionedSignedBuilderBid {
+func (in *c09Instance) makeBid(r int, au *c09Auction, a c09Answer) *builderspec.VersionedSignedBuilderBid {
 	feeRecipient := bellatrix.ExecutionAddress{}
 	if !a.FeeZero {
 		feeRecipient = bellatrix.ExecutionAddress{0x11, 0x22, 0x33}
@@ -728,7 +850,7 @@ func (in *c09Instance) makeBid(r *c09Relay, au *c09Auction, a c09Answer) *builde
 	var sig phase0.BLSSignature
 	switch a.Sig {
 	case "unverifiable":
-		sig = in.env.badSig
+		sig = in.env.badSigs[r-1]
 	default:
 		root, err := bid.MessageHashTreeRoot()
 		if err != nil {
@@ -738,9 +860,10 @@ func (in *c09Instance) makeBid(r *c09Relay, au *c09Auction, a c09Answer) *builde
 		if err != nil {
 			panic(fmt.Sprintf("c09: signing root: %v", err))
 		}
-		sk := r.sk
+		// "valid" = signed with the relay's key K1, "invalid" = signed with its other key K2
+		sk := in.relayKey(r, "K1")
 		if a.Sig == "invalid" {
-			sk = in.env.otherKey
+			sk = in.relayKey(r, "K2")
 		}
 		copy(sig[:], sk.Sign(signingRoot[:]).Marshal())
 	}
@@ -786,8 +909,13 @@ type c09Timed struct {
 // start calls AuctionBlock for au on its own goroutine and returns once the service has fetched the
 // relay configurations of this auction.
 func (in *c09Instance) start(au *c09Auction) {
-	fetched := in.execConfig.set(au.key.pubkey, &beaconblockproposer.ProposerConfig{
-		FeeRecipient: bellatrix.ExecutionAddress{0x01}, Relays: in.relayConfigs(au.cfg)})
+	var fetched chan struct{}
+	if in.wired {
+		fetched = in.installConfig(au)
+	} else {
+		fetched = in.execConfig.set(au.key.pubkey, &beaconblockproposer.ProposerConfig{
+			FeeRecipient: bellatrix.ExecutionAddress{0x01}, Relays: in.relayConfigs(au.cfg)})
+	}
 	// The slot of an auction starts when the (first) auction for it starts: the deadline strategy counts its
 	// deadline from the slot start, the best strategy its time-outs from the call.  Two auctions of one slot
 	// that overlap share the slot start.
@@ -858,8 +986,16 @@ func (e *c09Env) runHistory(sc c09Scenario, w *c09Watch, attempt int) (events []
 	rng := rand.New(rand.NewSource(verifsupport.Seed()*1000003 + int64(sc.Sc)*7919 + int64(attempt)))
 	widen := attempt >= 3
 	uniq := fmt.Sprintf("s%d-a%d-%d", sc.Sc, attempt, rng.Int63())
-	in := e.newInstance(variant, reset.Prov, uniq)
-	defer in.cancel()
+	nrel := 0
+	var table map[string]c09BuilderCfg
+	for _, st := range sc.Steps {
+		if st.Ev == "Auction" {
+			nrel, table = len(st.Cfg), st.Builders
+			break
+		}
+	}
+	in := e.newInstance(variant, reset.Family, nrel, c09BuilderConfigs(table), uniq)
+	defer in.close()
 	version := []consensusspec.DataVersion{consensusspec.DataVersionBellatrix, consensusspec.DataVersionCapella, consensusspec.DataVersionDeneb}[rng.Intn(3)]
 
 	// The auctions of the history, with the answers of every relay in order.
@@ -887,7 +1023,7 @@ func (e *c09Env) runHistory(sc c09Scenario, w *c09Watch, attempt int) (events []
 		// answer is repeated (a new, identical object) once or twice before the relay goes silent.
 		for i := 1; i <= len(aucs); i++ {
 			au := aucs[i]
-			for r := 1; au != nil && r <= len(in.relays); r++ {
+			for r := 1; au != nil && r <= in.nrel; r++ {
 				if len(au.scripts[r]) > 0 && rng.Intn(2) == 0 {
 					lastItem := au.scripts[r][len(au.scripts[r])-1]
 					for k := 1 + rng.Intn(2); k > 0; k-- {
@@ -915,9 +1051,28 @@ func (e *c09Env) runHistory(sc c09Scenario, w *c09Watch, attempt int) (events []
 		}
 		timed = append(timed, c09Timed{at: at, evs: []verifsupport.Ev{ev}})
 	}
-	provOut := make([]bool, len(reset.Prov))
-	copy(provOut, reset.Prov)
-	note(time.Time{}, verifsupport.Ev{"ev": "Reset", "variant": variant, "prov": provOut, "mode": reset.Mode, "version": version.String(), "attempt": attempt})
+	if in.wired {
+		// a bid is recognised in the Results by its content: a relay does not repeat an earlier answer of the auction
+		// after a different one (repeats in a row are the same bid to the strategy as well)
+		for _, au := range aucs {
+			for r, script := range au.scripts {
+				var kept []c09Scripted
+				for _, item := range script {
+					seen := false
+					for k := 0; k+1 < len(kept); k++ {
+						if kept[k].a == item.a {
+							seen = true
+						}
+					}
+					if !seen {
+						kept = append(kept, item)
+					}
+				}
+				au.scripts[r] = kept
+			}
+		}
+	}
+	note(time.Time{}, verifsupport.Ev{"ev": "Reset", "variant": variant, "family": reset.Family, "mode": reset.Mode, "version": version.String(), "attempt": attempt})
 
 	window := int64(c09Window / time.Millisecond)
 	if widen {
@@ -998,7 +1153,7 @@ func (e *c09Env) runHistory(sc c09Scenario, w *c09Watch, attempt int) (events []
 			}
 			cfgOut := make([]map[string]interface{}, len(au.cfg))
 			for i, c := range au.cfg {
-				cfgOut[i] = map[string]interface{}{"min": c.Min, "key": c.Key, "grace": c.Grace}
+				cfgOut[i] = map[string]interface{}{"min": c.Min, "key": c.Key, "grace": c.Grace, "sp": c.Sp}
 			}
 			// does AuctionBlock of another auction really have not returned yet?
 			overlapping := false
@@ -1016,6 +1171,22 @@ func (e *c09Env) runHistory(sc c09Scenario, w *c09Watch, attempt int) (events []
 		case "Return":
 			if au := aucs[st.I]; au != nil {
 				join(au)
+			}
+		case "Fetch":
+			// another user of the client cache; a panic in it is an event no action of the specification allows
+			at := time.Now()
+			var ferr error
+			func() {
+				defer func() {
+					if p := recover(); p != nil {
+						note(time.Now(), verifsupport.Ev{"ev": "Crash", "what": fmt.Sprint(p)})
+						failed = true
+					}
+				}()
+				ferr = in.fetch(st.R, st.Sp, st.Via)
+			}()
+			if !failed {
+				note(at, verifsupport.Ev{"ev": "Fetch", "r": st.R, "sp": st.Sp, "via": st.Via, "err": ferr != nil})
 			}
 		case "Serve":
 			var target *c09Auction
@@ -1139,19 +1310,34 @@ func (cr *c09Results) fill(res *blockauctioneer.Results, in *c09Instance, au *c0
 	if res == nil {
 		return
 	}
+	// relays are identified by location (which spelling's client a result names is not the property's business)
 	idOf := func(p builderclient.BuilderBidProvider) int {
 		if p == nil {
 			return -1
 		}
-		if id, ok := in.addrToID[p.Address()]; ok {
+		if id := in.locOf(p.Address()); id > 0 {
 			return id
 		}
 		return -1
 	}
 	if wp := res.WinningParticipation; wp != nil {
-		in.mu.Lock()
-		id, known := in.bids[wp.Bid]
-		in.mu.Unlock()
+		var id c09BidID
+		var known bool
+		if in.wired {
+			// the bid came over HTTP: recognised by its content among the answers given to THIS auction (the keys and
+			// the unverifiable signatures differ per relay, so the content names the relay); remembered by pointer
+			// for what BuilderBid serves later
+			id, known = au.bidByContent(wp.Bid, 0)
+			if known {
+				in.mu.Lock()
+				in.bids[wp.Bid] = id
+				in.mu.Unlock()
+			}
+		} else {
+			in.mu.Lock()
+			id, known = in.bids[wp.Bid]
+			in.mu.Unlock()
+		}
 		if !known || id.i != au.i {
 			// not a bid that a relay gave to THIS auction
 			id = c09BidID{r: -2, n: -2}
@@ -1171,15 +1357,21 @@ func (cr *c09Results) fill(res *blockauctioneer.Results, in *c09Instance, au *c0
 	sort.Strings(addrs)
 	for _, a := range addrs {
 		p := res.Participation[a]
-		rid, ok := in.addrToID[a]
-		if !ok {
+		rid := in.locOf(a)
+		if rid == 0 {
 			rid = -1
 		}
 		n := -2
 		if p != nil {
-			in.mu.Lock()
-			id, known := in.bids[p.Bid]
-			in.mu.Unlock()
+			var id c09BidID
+			var known bool
+			if in.wired {
+				id, known = au.bidByContent(p.Bid, rid)
+			} else {
+				in.mu.Lock()
+				id, known = in.bids[p.Bid]
+				in.mu.Unlock()
+			}
 			if known && id.r == rid && id.i == au.i {
 				n = id.n
 			}
@@ -1197,6 +1389,9 @@ func TestVerifC09(t *testing.T) {
 		t.Fatalf("bls: %v", err)
 	}
 	zerolog.SetGlobalLevel(zerolog.Disabled)
+	// wired family: the time-out of the relay HTTP clients that util.FetchBuilderClient creates (set once, before
+	// any history runs)
+	viper.Set("timeout", 2*time.Second)
 	ctx, cancel := context.WithCancel(context.Background())
 	defer cancel()
 	if len(scenarios) == 0 {
